@@ -695,7 +695,7 @@ class AttachStatement(Statement):
 
     def asFea(self, indent=""):
         return "Attach {} {};".format(
-            self.glyphs.asFea(), " ".join(str(c) for c in self.contourPoints)
+            self.glyphs.asFea(), " ".join(str(c) for c in sorted(self.contourPoints))
         )
 
 
